@@ -443,6 +443,8 @@ func reportViolation(t *testing.T, sc *Scenario, res *RunResult, v Violation, ti
 	rf := &ReplayFile{Property: sc.Prop, Scenario: sc.Name, Seed: res.Seed, Run: res.Run, Tier: tier, Race: simrt.RaceBuild,
 		Tape: small.gen, Sched: small.sched, Violation: Violation{Rule: v.Rule, Msg: msg, Sig: v.Sig}, Digest: final.Digest, Desc: final.Desc,
 		Shrunk: len(small.gen)+len(small.sched) < len(orig.gen)+len(orig.sched), OrigLen: len(orig.gen) + len(orig.sched)}
+	ei := res.EnumIndex
+	rf.EnumIndex = &ei
 	name := fmt.Sprintf("%s-%s-s%d-r%d.json", sc.Prop, sanitize(v.Sig), res.Seed, res.Run)
 	path := filepath.Join(replayDir, name)
 	if err := writeReplay(path, rf); err != nil {
@@ -502,6 +504,7 @@ func replayMain(t *testing.T, enc *json.Encoder, path, tier string) {
 		tier = rf.Tier
 	}
 	readRaceLog()
+	enumIndexOverride = rf.EnumIndex
 	res := execRun(t, sc, simrt.NewReplayTape(rf.Tape, rf.Sched), rf.Seed, rf.Run, tier, true)
 	if simrt.RaceBuild {
 		res.Viol = append(res.Viol, raceSignatures(readRaceLog())...)
